@@ -16,6 +16,8 @@ tvars == <<vars, l>>
 \* ---- thresholds (all of C05's tolerances live here) ------------------------------------------------------------
 RoundTripTolE9 == 1000000       \* 1e-3 relative, in units of 1e-9
 OptTolE15      == 1000000000    \* 1e-6 relative: curve_fit iterates towards the closed-form optimum
+OptActiveTolE9 == 100000        \* 1e-4 relative when the optimum is a bound (the unconstrained optimum lies outside): the
+                                \* trust-region reflective method approaches an active bound from the interior (observed 3.5e-6)
 EquivTolE15    == 1000000000    \* 1e-6 relative: the same data in other units
 LawTolE15      == 1000          \* 1e-12 of the largest value: rounding level
 
@@ -52,7 +54,8 @@ StepFit(e) ==
                    \cup (IF FitResultOK(cl, mv, tv) THEN {} ELSE {"FitResult"})
                    \cup (IF ~e.given /\ e.gen_inside /\ (e.rt_m > RoundTripTolE9 \/ e.rt_tau > RoundTripTolE9)
                          THEN {"RoundTrip"} ELSE {})
-                   \cup (IF e.given /\ e.opt_e15 > OptTolE15 THEN {"FixedTauOptimal"} ELSE {})
+                   \cup (IF e.given /\ ~e.opt_active /\ e.opt_e15 > OptTolE15 THEN {"FixedTauOptimal"} ELSE {})
+                   \cup (IF e.given /\ e.opt_active /\ e.opt_e9 > OptActiveTolE9 THEN {"FixedTauOptimal"} ELSE {})
                    \cup (IF e.eq_e15 > EquivTolE15 THEN {"Equivariant"} ELSE {}))
 
 StepCum(e) ==
